@@ -169,7 +169,7 @@ Definition ints (l : list Z) : list earg := map (fun z => EV (VInt z)) l.
 Definition seq_ (l : list Z) (rep : Z) : pexpr := ECall CSequence [EL (ints l); EV (VInt rep)].
 Definition yields (l : list val) : list (outcome val) := map Yield l ++ [Stop].
 
-Theorem C10_remaining_classes_partial :
+Theorem C10_remaining_classes_instances :
   outs 40 7 (seq_ [1; 2; 3] 2) = yields (ref_sequence (map zi [1; 2; 3]) 2) /\
   outs 40 7 (ECall CLoop [EP (seq_ [1; 2; 3] 1); EV (VInt 2)]) = yields (ref_loop 2 (map zi [1; 2; 3])) /\
   outs 40 10 (ECall CPingPong [EP (seq_ [1; 4; 9] 1); EV (VInt 2)]) = yields (ref_pingpong 2 (map zi [1; 4; 9])) /\
